@@ -205,7 +205,8 @@ class EngineRun:
             # (no stderr redirection here: that would be process-global state introduced by the harness)
             # half of the loads use the very same text in every engine (a cache keyed by text would be shared)
             code = compile_prolog_from_string(SNIPS[op[1]].format(t=self.tag if (len(op) < 4 or op[3]) else 'x'))
-            yp.load_script_from_string(code, fn='<sim:%s>' % self.tag, overwrite=op[2])
+            # scripts with an even index are loaded under one file-name label in every engine (a cache keyed by file name would be shared)
+            yp.load_script_from_string(code, fn='<sim:%s>' % (self.tag if op[1] % 2 else 'script'), overwrite=op[2])
             return hashlib.sha256(code.encode()).hexdigest()[:8]
         if kind == 'assert':
             if op[4]:
